@@ -145,6 +145,13 @@ func runValidators(val interface{}, validators []validatorTag) error {
 	return nil
 }
 
+// validatingKey names a value the validation of defaults is below: where it
+// starts and what it is.
+type validatingKey struct {
+	p uintptr
+	t reflect.Type
+}
+
 func tryRecursiveValidate(val reflect.Value, opts *options, validators []validatorTag) error {
 	var curr interface{}
 	if val.IsValid() {
@@ -174,11 +181,14 @@ func tryRecursiveValidate(val reflect.Value, opts *options, validators []validat
 			p = ref.Pointer()
 		}
 		if p != 0 {
-			if _, below := opts.validating[p]; below {
+			// (the type is part of the key: a struct and a slice over its
+			// first field start at the same address)
+			key := validatingKey{p, chaseValue(val).Type()}
+			if _, below := opts.validating[key]; below {
 				return nil
 			}
-			opts.validating[p] = struct{}{}
-			defer delete(opts.validating, p)
+			opts.validating[key] = struct{}{}
+			defer delete(opts.validating, key)
 		}
 	}
 
